@@ -60,8 +60,12 @@ def run(chk):
         for b in plot:
             if a != b and "clustermap" in a:
                 histories.append([a, b])
-    hcl = [n for n in names if "hierarchical_clustering" in n]
-    histories += [[a, b] for a in hcl for b in hcl if a != b]
+    # every ordered pair of catalogue entries of the SAME function (options given in one call must not leak into the next)
+    by_fn = {}
+    for n in names:
+        by_fn.setdefault(n.split("-")[0], []).append(n)
+    directed = [[a, b] for grp in by_fn.values() for a in grp for b in grp if a != b]
+    histories += directed
     kd = [n for n in names if "kdtree" in n]
     histories += [[a, b, a] for a in kd for b in kd if a != b]
     for _ in range(n_hist):
@@ -69,9 +73,9 @@ def run(chk):
     if not thorough:
         # keep the quick tier within its time budget
         head = histories[: len(names)]
-        rest = histories[len(names):]
+        rest = [h for h in histories[len(names):] if h not in directed]
         rng.shuffle(rest)
-        histories = head + rest[:110]
+        histories = head + directed + rest[:70]
     for h in histories:
         for k, name in enumerate(h):
             res, before, after = cc.run_call(C, name)
